@@ -222,6 +222,28 @@ fn scenario(ctx: &Ctx, idx: u64, rep: &mut Report) {
     if rng.chance(2, 3) {
         acts.insert(0, Act::Call(0, Op::Configure, 0));
     }
+    // every fourth scenario is the full legal tour of one sign (every operation succeeds on a healthy path, so every
+    // kind of reply — each acknowledgement, each in-progress and final state — crosses the bridge), with the random
+    // acts appended behind it
+    if idx % 4 == 0 {
+        let who = (idx as usize / 4) % n_signs;
+        let tour = vec![
+            Act::Call(who, Op::ConfigureIfNeeded, 0),
+            Act::Call(who, Op::SendPages, 1),
+            Act::Call(who, Op::Show, 0),
+            Act::Call(who, Op::LoadNext, 0),
+            Act::Call(who, Op::Show, 0),
+            Act::Call(who, Op::SendPages, 2),
+            Act::Call(who, Op::LoadNext, 0),
+            Act::Call(who, Op::Configure, 0),
+            Act::Call(who, Op::SendPages, 0),
+        ];
+        rep.count("legal_tours");
+        let tail: Vec<Act> = acts.drain(..).take(2).collect();
+        acts = tour;
+        acts.extend(tail);
+        acts.push(Act::Call(who, Op::ShutDown, 0));
+    }
     rep.case(Some(fnv(format!("{:?}{:?}{:?}{:?}", addrs, autos, types, acts).as_bytes())));
     let mut steps: Vec<String> = vec![];
     for act in &acts {
@@ -282,6 +304,10 @@ fn scenario(ctx: &Ctx, idx: u64, rep: &mut Report) {
         }
         if a.is_ok() {
             rep.count("ops_succeeded_on_both_paths");
+            if idx % 4 == 0 {
+                rep.count("tour_ops_succeeded");
+            }
+            rep.seen("ops_succeeded", match op { Op::Configure => 0, Op::ConfigureIfNeeded => 1, Op::SendPages => 2, Op::Show => 3, Op::LoadNext => 4, Op::ShutDown => 5 });
         } else if !b.is_ok() {
             rep.count("ops_failed_on_both_paths");
         }
@@ -452,8 +478,10 @@ pub fn run(ctx: &Ctx) -> Outcome {
     let floors = vec![
         floor("all 11 sign types used", report.set_len("types_used") == 11, report.set_len("types_used")),
         floor("all 6 operations used", report.set_len("ops_used") == 6, report.set_len("ops_used")),
+        floor("all 6 operations SUCCEEDED somewhere (on both paths)", report.set_len("ops_succeeded") == 6, report.set_len("ops_succeeded")),
         floor("operations succeeding on both paths", report.get("ops_succeeded_on_both_paths") > 0, report.get("ops_succeeded_on_both_paths")),
         floor("operations failing on both paths (illegal orders compared)", report.get("ops_failed_on_both_paths") > 0, report.get("ops_failed_on_both_paths")),
+        floor("full legal tours (configure, send, show, load-next, re-send, shut-down all succeeding)", report.get("legal_tours") > 20 && report.get("tour_ops_succeeded") > 100, report.get("tour_ops_succeeded")),
         floor("reconfiguration as another type", report.get("reconfigured_as_another_type") > 0, report.get("reconfigured_as_another_type")),
         floor("raw lines injected at the bridge", report.get("raw_lines_injected") > 300, report.get("raw_lines_injected")),
         floor("undecodable lines at the bridge", report.get("bridge_undecodable_lines") > 100, report.get("bridge_undecodable_lines")),
